@@ -125,3 +125,12 @@ package storer
 //gvc:  ensures deleted: err == nil ==> s.#loglen == store(old(s.#loglen), strid(name), 0)
 //gvc:  ensures unchanged: err != nil ==> s.#loglen == old(s.#loglen)
 //gvc:end
+
+// FilesystemStorer.Filesystem hands out the filesystem the storage lives on
+// (#owner: the storage it belongs to). Trusted interface contract.
+//gvc:ghost billy.Filesystem.owner int
+//gvc:func FilesystemStorer.Filesystem
+//gvc:  trusted
+//gvc:  params s
+//gvc:  ensures own: result.#owner == s
+//gvc:end
